@@ -23,7 +23,8 @@ func init() {
 			"D4 the scanner goroutine cannot spin: every arm of its scan loop consumes at least one rune (no token pattern accepts the empty string, the cursor advances by the match length) or leaves the loop; " +
 			"D5 the scanner goroutine is not abandoned: it closes the token queue after its loop, and ParseSource registers, before anything that can panic, a deferred drain that reads the queue until it is closed; " +
 			"D6 every loop of the parser and scanner is in a terminating (or blocking-read) form." +
-			" Also: the functions that build a diagnostic take constant-bound slices only of operands whose length an enclosing condition establishes; between the test of the bound and the matchers nothing moves the cursor; the matcher sees the whole rest of the input; parser state is re-created per parse.",
+			" Also: the functions that build a diagnostic take constant-bound slices only of operands whose length an enclosing condition establishes; between the test of the bound and the matchers nothing moves the cursor; the matcher sees the whole rest of the input; parser state is re-created per parse." +
+			" Round 7: an index guard that compares the index with the length excludes the length itself (all functions of the package, closures included).",
 		NotDecided: "absence of every other runtime error on arbitrary input, the line/column arithmetic of the diagnostic, stack depth (recursion depth equals input nesting, unbounded by design).",
 		Run:        runC12,
 	})
